@@ -263,7 +263,15 @@ impl VM {
                 }
                 OpCode::GetGlobal => {
                     let idx = self.read_u16();
-                    let value = self.globals[idx as usize];
+                    // a global can be referenced before anything was stored in it (stel x = x)
+                    let value = match self.globals.get(idx as usize) {
+                        Some(value) => *value,
+                        None => {
+                            return Err(Error::ReferenceError(
+                                "variabele wordt gebruikt voordat deze een waarde heeft".to_string(),
+                            ))
+                        }
+                    };
                     self.push(value);
                 }
                 OpCode::SetLocal => {
